@@ -1,25 +1,31 @@
 package main
 
-// Pure_gen.v: small pure functions of package mxj translated statement by statement
-// (DESIGN.md section 4.2, "as built"): cast (xml.go) and escapeChars (escapechars.go), plus the
-// constant table escapeChars ranges over.  The theorems of GenProofs/PureG.v state that the
-// translated functions ARE the hand-written model functions (Model/XmlDec.v cast, escape_chars),
-// so every theorem about those model functions is re-checked against what the code says now.
+// Pure_gen.v: functions of package mxj translated statement by statement into Gallina
+// (DESIGN.md section 11.1).  The theorems of GenProofs/PureG*.v state that each translated
+// function IS the hand-written model function, so every theorem about the model function is
+// re-checked against what the code says now.
 //
-// Fragment (fails closed outside it):
-//   statements   return e | local := e | local = e | if [x, err := strconv.ParseX(..); err == nil] cond {..} [else ..]
-//                | switch tag { case consts: .. [default: ..] } (no fallthrough/break)
-//                | for _, v := range <package-level table> { .. } with `continue` and one loop-carried local
-//   expressions  the setters' fragment (package option variables, parameters, locals, !, &&, ||, ==, !=, <, >,
-//                len, s[a:b] with constant bounds, string literals, strings.ToLower) plus: calls of the function
-//                value checkTagToSkip, strconv.ParseInt/ParseUint(s, 10, 64), strconv.ParseFloat(s, 64),
-//                strconv.ParseBool(s), math.IsNaN(f), math.IsInf(f, 0), []byte(s), string(b), bytes.Count,
-//                bytes.Replace, v[i] with constant i on a table row.
-//   result       interface{} boxed by the static type of the returned expression (string -> VStr, int64 -> VI64,
-//                uint64 -> VU64, float64 -> VFlt, bool -> VBool) or a plain string.
-// Standard-library calls are mapped to the Gallina functions named in callTable below; that mapping is part
-// of the trusted base (Base/Str.v parse_int/parse_uint/parse_bool are the transcriptions validated by the
-// C14 correspondence run; ParseFloat is the Section variable ParseFloat, an oracle).
+// Translation scheme.  A statement list becomes an expression of type [ctl S A]:
+//     Ret a    the function returned a
+//     Next s   control reached the end of the list; s = the values of the outer locals the list assigns
+//     Crash    a run-time panic (index / slice bound, failed type assertion, call of a nil function value)
+//     Fall     control fell off the end of the function body (never, for a function with results)
+// and sequencing is [bindc x (fun s => rest)].  Loops are [range_loop body list state].
+//
+// Fragment (the translator FAILS CLOSED outside it):
+//   types        bool, string, []byte (= string), int/int64/uint64 (Z), float64 (its %v text), []string, [k][]byte rows,
+//                interface{} (value), map[string]interface{} (entries), []interface{} (list value), pointers to
+//                package-level structs of such fields (per-field locals; a record once stored), slices of those
+//   statements   return | := | = | var | x.f = e | m[k] = e (local map) | x, ok := m[k] | x, ok := v.(T)
+//                | x, err := strconv.ParseX(..) | if [init;] c {..} [else ..] | switch tag {..} | switch {..}
+//                | switch [x :=] v.(type) {..} | for _, v := range xs | for k, v := range m
+//                | for i := c; i < len(xs); i++ (i read only as xs[i]) | continue
+//   expressions  constants, package option variables, locals, ! && || == != < > <= >= +, len, x[c], xs[i], s[a:b], s[a:],
+//                append(xs, x), new(T), make(..) (empty), conversions, v.(T), calls listed in callTable,
+//                calls of other functions / methods of the package (Section variables: "external calls"),
+//                fmt.Errorf / errors.New (only as the error of a return: class EOther)
+// Standard-library calls are mapped to Gallina functions of Base/Str.v and Gen/PureSupport.v (callTable below);
+// that mapping and this translator are part of the trusted base.
 
 import (
 	"fmt"
@@ -27,58 +33,198 @@ import (
 	"go/constant"
 	"go/token"
 	"go/types"
+	"sort"
 	"strings"
 )
 
-type pureTr struct {
-	t        *setterTr
-	inLoop   bool
-	carried  string // Gallina name of the loop-carried local
-	tables   map[types.Object]string
-	retBox   bool // result type is interface{}: box returned values
-	stateTy  string
-	resultTy string
-}
+// ---------------------------------------------------------------- kinds
 
-// pureKind extends kindOf for the pure fragment.
-func pureKind(t types.Type) string {
-	switch u := t.Underlying().(type) {
+func (t *fnTr) kindOfType(ty types.Type) string {
+	if ty == nil {
+		return ""
+	}
+	if n, ok := ty.(*types.Named); ok {
+		if _, isS := n.Underlying().(*types.Struct); isS && n.Obj().Pkg() == t.p.pkg {
+			return "rec:" + n.Obj().Name()
+		}
+		if n.Obj().Pkg() == nil && n.Obj().Name() == "error" {
+			return "err"
+		}
+	}
+	switch u := ty.Underlying().(type) {
 	case *types.Basic:
-		if u.Info()&types.IsFloat != 0 {
+		switch {
+		case u.Info()&types.IsBoolean != 0:
+			return "bool"
+		case u.Info()&types.IsString != 0:
+			return "str"
+		case u.Info()&types.IsInteger != 0:
+			return "int"
+		case u.Info()&types.IsFloat != 0:
 			return "flt"
+		case u.Kind() == types.UntypedNil:
+			return "nil"
+		}
+	case *types.Interface:
+		if u.NumMethods() == 0 {
+			return "val"
+		}
+		if ty.String() == "error" {
+			return "err"
+		}
+	case *types.Map:
+		if kb, ok := u.Key().Underlying().(*types.Basic); ok && kb.Info()&types.IsString != 0 {
+			if t.kindOfType(u.Elem()) == "val" {
+				return "vmap"
+			}
 		}
 	case *types.Slice:
 		if b, ok := u.Elem().Underlying().(*types.Basic); ok && b.Kind() == types.Byte {
 			return "str"
 		}
-		if isByteSlice(u.Elem()) {
+		switch k := t.kindOfType(u.Elem()); {
+		case k == "str":
 			return "strs"
+		case k == "bool":
+			return "bools"
+		case k == "val":
+			return "vlist"
+		case strings.HasPrefix(k, "rec:"):
+			return "recs:" + k[4:]
 		}
 	case *types.Array:
-		if isByteSlice(u.Elem()) {
+		if t.kindOfType(u.Elem()) == "str" {
 			return "strs"
 		}
+	case *types.Pointer:
+		if k := t.kindOfType(u.Elem()); strings.HasPrefix(k, "rec:") {
+			return k
+		}
+		return "tok"
+	case *types.Signature:
+		return "tok"
 	}
 	return ""
 }
 
-func isByteSlice(t types.Type) bool {
-	if sl, ok := t.Underlying().(*types.Slice); ok {
-		if b, ok := sl.Elem().Underlying().(*types.Basic); ok && b.Kind() == types.Byte {
-			return true
-		}
-	}
-	return false
-}
-
-func pureCoqType(k string) string {
-	if k == "flt" {
+func fnCoqType(k string) string {
+	switch {
+	case k == "bool", k == "errnil":
+		return "bool"
+	case k == "str":
+		return "str"
+	case k == "int":
+		return "Z"
+	case k == "flt":
 		return "flt"
+	case k == "strs":
+		return "(list str)"
+	case k == "bools":
+		return "(list bool)"
+	case k == "val":
+		return "value"
+	case k == "vmap":
+		return "entries"
+	case k == "vlist":
+		return "(list value)"
+	case k == "tok":
+		return "(option nat)"
+	case strings.HasPrefix(k, "rec:"):
+		return "t_" + k[4:]
+	case strings.HasPrefix(k, "recs:"):
+		return "(list t_" + k[5:] + ")"
 	}
-	return coqType(k)
+	return "?" + k
 }
 
-func (p *pureTr) pkgCall(x *ast.CallExpr) (pkg, name string, ok bool) {
+func fnZero(k string) string {
+	switch {
+	case k == "bool":
+		return "false"
+	case k == "int":
+		return "0%Z"
+	case k == "flt":
+		return "(s\"0\")"
+	case k == "val":
+		return "VNil"
+	case k == "tok":
+		return "None"
+	}
+	return "([] : " + fnCoqType(k) + ")"
+}
+
+// ---------------------------------------------------------------- translator state
+
+type lvar struct {
+	name   string
+	kind   string
+	fields map[string]*lvar // struct locals: one Gallina local per field
+	forder []string
+	elemOf types.Object // loop index variable: the slice it indexes
+	elem   string       // ... and the Gallina name of the current element
+}
+
+type extern struct {
+	name string
+	typ  string
+}
+
+type fnTr struct {
+	p       *pkgInfo
+	vars    map[types.Object]*gvar
+	fn      *ast.FuncDecl
+	locals  map[types.Object]*lvar
+	used    map[string]int
+	guards  []string
+	fresh   int
+	tables  map[types.Object]string
+	externs *[]extern
+	structs map[string]*types.Struct
+	resKind []string // kinds of the results
+	inLoop  bool
+	loopEnd func() string
+	escaped map[types.Object]bool
+}
+
+func (t *fnTr) pos(n ast.Node) string { return t.p.fset.Position(n.Pos()).String() }
+
+func (t *fnTr) unsupported(n ast.Node, what string) {
+	fail("%s: function %s uses a construct outside the translated fragment: %s", t.pos(n), t.fn.Name.Name, what)
+}
+
+func (t *fnTr) kindOfExpr(e ast.Expr) string {
+	tv, ok := t.p.info.Types[e]
+	if !ok {
+		return ""
+	}
+	return t.kindOfType(tv.Type)
+}
+
+func (t *fnTr) newLocal(obj types.Object, base, kind string) *lvar {
+	n := "l_" + base
+	if c := t.used[n]; c > 0 {
+		t.used[n] = c + 1
+		n = fmt.Sprintf("%s_%d", n, c)
+	} else {
+		t.used[n] = 1
+	}
+	lv := &lvar{name: n, kind: kind}
+	if obj != nil {
+		t.locals[obj] = lv
+	}
+	return lv
+}
+
+func (t *fnTr) constInt(e ast.Expr) (int64, bool) {
+	tv := t.p.info.Types[e]
+	if tv.Value != nil && tv.Value.Kind() == constant.Int {
+		v, ok := constant.Int64Val(tv.Value)
+		return v, ok
+	}
+	return 0, false
+}
+
+func (t *fnTr) pkgCall(x *ast.CallExpr) (pkg, name string, ok bool) {
 	se, isSel := x.Fun.(*ast.SelectorExpr)
 	if !isSel {
 		return
@@ -87,124 +233,446 @@ func (p *pureTr) pkgCall(x *ast.CallExpr) (pkg, name string, ok bool) {
 	if !isId {
 		return
 	}
-	pn, isPkg := p.t.p.info.Uses[id].(*types.PkgName)
+	pn, isPkg := t.p.info.Uses[id].(*types.PkgName)
 	if !isPkg {
 		return
 	}
 	return pn.Imported().Path(), se.Sel.Name, true
 }
 
-// call translates the extra call forms of the pure fragment.
-func (p *pureTr) call(t *setterTr, x *ast.CallExpr) (string, bool) {
-	// conversions []byte(s), string(b)
-	if tv, ok := t.p.info.Types[x.Fun]; ok && tv.IsType() && len(x.Args) == 1 {
-		from, to := t.kindOfExpr(x.Args[0]), pureKind(tv.Type)
-		if to == "" {
-			to = kindOf(tv.Type)
+// guarded wraps body in the guards collected since mark.
+func (t *fnTr) guarded(mark int, body string) string {
+	gs := t.guards[mark:]
+	t.guards = t.guards[:mark]
+	var sb strings.Builder
+	for _, g := range gs {
+		sb.WriteString(g + " ")
+	}
+	sb.WriteString(body)
+	for _, g := range gs {
+		if strings.HasPrefix(g, "match") {
+			sb.WriteString(" end")
 		}
-		if from == "str" && to == "str" {
-			return t.expr(x.Args[0]), true
+	}
+	if len(gs) > 0 {
+		return "(" + sb.String() + ")"
+	}
+	return sb.String()
+}
+
+// structValue: a struct local used as a value (stored, appended, returned): the record of its fields.
+func (t *fnTr) structValue(obj types.Object, lv *lvar) string {
+	t.escaped[obj] = true
+	parts := make([]string, len(lv.forder))
+	for i, f := range lv.forder {
+		parts[i] = lv.fields[f].name
+	}
+	return "(mk_" + lv.kind[4:] + " " + strings.Join(parts, " ") + ")"
+}
+
+// boxVal: an expression of a concrete static type converted to interface{}.
+func (t *fnTr) boxVal(e ast.Expr) string {
+	v := t.expr(e)
+	switch k := t.kindOfExpr(e); k {
+	case "val":
+		return v
+	case "str":
+		return "(VStr " + v + ")"
+	case "bool":
+		return "(VBool " + v + ")"
+	case "flt":
+		return "(VFlt " + v + ")"
+	case "vmap":
+		return "(VMap " + v + ")"
+	case "vlist":
+		return "(VList " + v + ")"
+	case "nil":
+		return "VNil"
+	case "int":
+		b := t.p.info.Types[e].Type.Underlying().(*types.Basic)
+		switch b.Kind() {
+		case types.Int64:
+			return "(VI64 " + v + ")"
+		case types.Uint64:
+			return "(VU64 " + v + ")"
+		case types.Int, types.UntypedInt:
+			return "(VInt " + v + ")"
+		}
+	}
+	t.unsupported(e, "value of this type stored in an interface{}")
+	return ""
+}
+
+// assertPat: the constructor pattern of value for a Go type in a type assertion / type switch.
+func (t *fnTr) assertPat(ty types.Type, bind string) (pat string, kind string) {
+	switch k := t.kindOfType(ty); k {
+	case "str":
+		if b, ok := ty.Underlying().(*types.Basic); ok && b.Info()&types.IsString != 0 {
+			return "VStr " + bind, k
+		}
+	case "bool":
+		return "VBool " + bind, k
+	case "flt":
+		if b, ok := ty.Underlying().(*types.Basic); ok && b.Kind() == types.Float64 {
+			return "VFlt " + bind, k
+		}
+	case "vmap":
+		return "VMap " + bind, k
+	case "vlist":
+		return "VList " + bind, k
+	}
+	return "", ""
+}
+
+// ---------------------------------------------------------------- expressions
+
+func (t *fnTr) expr(e ast.Expr) string {
+	tv := t.p.info.Types[e]
+	if tv.Value != nil {
+		switch k := t.kindOfType(tv.Type); k {
+		case "bool", "str", "int":
+			if s, ok := constTerm(tv.Value, k); ok {
+				return s
+			}
+		}
+	}
+	switch x := e.(type) {
+	case *ast.ParenExpr:
+		return "(" + t.expr(x.X) + ")"
+	case *ast.Ident:
+		obj := t.p.info.Uses[x]
+		if g, ok := t.vars[obj]; ok {
+			return "(g_" + g.name + " st)"
+		}
+		if lv, ok := t.locals[obj]; ok {
+			if lv.fields != nil {
+				return t.structValue(obj, lv)
+			}
+			if lv.elemOf != nil {
+				t.unsupported(e, "loop index used other than as an index of the ranged slice")
+			}
+			return lv.name
+		}
+		if tv.IsNil() {
+			switch t.kindOfType(tv.Type) {
+			case "val":
+				return "VNil"
+			case "tok":
+				return "None"
+			}
+			return fnZero(t.kindOfType(tv.Type))
+		}
+		t.unsupported(e, "identifier "+x.Name)
+	case *ast.UnaryExpr:
+		if x.Op == token.NOT {
+			return "(negb " + t.expr(x.X) + ")"
+		}
+		t.unsupported(e, "unary "+x.Op.String())
+	case *ast.BinaryExpr:
+		k := t.kindOfExpr(x.X)
+		if k == "nil" {
+			k = t.kindOfExpr(x.Y)
+		}
+		switch x.Op {
+		case token.LAND, token.LOR:
+			a := t.expr(x.X)
+			n := len(t.guards)
+			b := t.expr(x.Y)
+			if len(t.guards) != n {
+				t.unsupported(e, "partial operation on the right of a short-circuit operator (outside an if condition)")
+			}
+			if x.Op == token.LAND {
+				return "(" + a + " && " + b + ")"
+			}
+			return "(" + a + " || " + b + ")"
+		case token.EQL, token.NEQ:
+			var r string
+			switch k {
+			case "err":
+				id, ok := x.X.(*ast.Ident)
+				lv := t.locals[t.p.info.Uses[id]]
+				if !ok || lv == nil || lv.kind != "errnil" || !t.p.info.Types[x.Y].IsNil() {
+					t.unsupported(e, "comparison of an error value other than `err == nil` / `err != nil`")
+				}
+				r = lv.name
+			case "bool":
+				r = "(Bool.eqb " + t.expr(x.X) + " " + t.expr(x.Y) + ")"
+			case "str":
+				r = "(str_eqb " + t.expr(x.X) + " " + t.expr(x.Y) + ")"
+			case "int":
+				r = "(Z.eqb " + t.expr(x.X) + " " + t.expr(x.Y) + ")"
+			case "flt":
+				r = "(flt_eqb " + t.expr(x.X) + " " + t.expr(x.Y) + ")"
+			case "tok":
+				if t.p.info.Types[x.Y].IsNil() {
+					r = "(match " + t.expr(x.X) + " with None => true | Some _ => false end)"
+				} else {
+					t.unsupported(e, "comparison of function / pointer values")
+				}
+			default:
+				t.unsupported(e, "== on this type")
+			}
+			if x.Op == token.NEQ {
+				return "(negb " + r + ")"
+			}
+			return r
+		case token.GTR, token.LSS, token.GEQ, token.LEQ:
+			if k != "int" {
+				t.unsupported(e, "ordering on a non-integer")
+			}
+			op := map[token.Token]string{token.GTR: "Z.gtb", token.LSS: "Z.ltb", token.GEQ: "Z.geb", token.LEQ: "Z.leb"}[x.Op]
+			return "(" + op + " " + t.expr(x.X) + " " + t.expr(x.Y) + ")"
+		case token.ADD:
+			if k == "str" {
+				return "(app " + t.expr(x.X) + " " + t.expr(x.Y) + ")"
+			}
+			if k == "int" {
+				return "(" + t.expr(x.X) + " + " + t.expr(x.Y) + ")%Z"
+			}
+		}
+		t.unsupported(e, "binary "+x.Op.String())
+	case *ast.CallExpr:
+		return t.call(x)
+	case *ast.IndexExpr:
+		k := t.kindOfExpr(x.X)
+		// xs[i] with the loop index of xs
+		if id, ok := x.Index.(*ast.Ident); ok {
+			if lv, ok := t.locals[t.p.info.Uses[id]]; ok && lv.elemOf != nil {
+				if base, ok := x.X.(*ast.Ident); ok && t.p.info.Uses[base] == lv.elemOf {
+					return lv.elem
+				}
+				t.unsupported(e, "loop index applied to another slice")
+			}
+		}
+		i, ok := t.constInt(x.Index)
+		if !ok || (k != "bools" && k != "strs" && k != "vlist" && !strings.HasPrefix(k, "recs:")) {
+			t.unsupported(e, "index expression")
+		}
+		base := t.expr(x.X)
+		t.fresh++
+		n := fmt.Sprintf("idx%d", t.fresh)
+		t.guards = append(t.guards, fmt.Sprintf("match nth_error %s %d with None => Crash | Some %s =>", base, i, n))
+		return n
+	case *ast.SliceExpr:
+		if t.kindOfExpr(x.X) != "str" || x.Slice3 {
+			t.unsupported(e, "slice expression")
+		}
+		var lo, hi int64
+		var ok bool
+		if x.Low != nil {
+			if lo, ok = t.constInt(x.Low); !ok {
+				t.unsupported(e, "slice bound")
+			}
+		}
+		base := t.expr(x.X)
+		if x.High == nil {
+			t.guards = append(t.guards, fmt.Sprintf("if Nat.ltb (length %s) %d then Crash else", base, lo))
+			return fmt.Sprintf("(skipn %d %s)", lo, base)
+		}
+		if hi, ok = t.constInt(x.High); !ok {
+			t.unsupported(e, "slice bound")
+		}
+		t.guards = append(t.guards, fmt.Sprintf("if Nat.ltb (length %s) %d then Crash else", base, hi))
+		return fmt.Sprintf("(firstn %d (skipn %d %s))", hi-lo, lo, base)
+	case *ast.TypeAssertExpr:
+		if x.Type == nil {
+			t.unsupported(e, "type switch guard outside a switch")
+		}
+		pat, _ := t.assertPat(t.p.info.Types[x.Type].Type, "")
+		if pat == "" {
+			t.unsupported(e, "type assertion to this type")
+		}
+		v := t.expr(x.X)
+		t.fresh++
+		n := fmt.Sprintf("as%d", t.fresh)
+		t.guards = append(t.guards, "ASSERT:"+v+":"+pat+n)
+		return n
+	case *ast.SelectorExpr:
+		if id, ok := x.X.(*ast.Ident); ok {
+			if lv, ok := t.locals[t.p.info.Uses[id]]; ok && lv.fields != nil {
+				if f, ok := lv.fields[x.Sel.Name]; ok {
+					return f.name
+				}
+			}
+		}
+		t.unsupported(e, "selector "+types.ExprString(e))
+	}
+	t.unsupported(e, fmt.Sprintf("expression %T", e))
+	return ""
+}
+
+// wrap is guarded with support for assertion guards ("ASSERT:v:pat": match v with pat => body | _ => Crash end).
+func (t *fnTr) wrap(mark int, body string) string {
+	gs := t.guards[mark:]
+	t.guards = t.guards[:mark]
+	out := body
+	for i := len(gs) - 1; i >= 0; i-- {
+		g := gs[i]
+		switch {
+		case strings.HasPrefix(g, "ASSERT:"):
+			parts := strings.SplitN(g[7:], ":", 2)
+			out = "(match " + parts[0] + " with " + parts[1] + " => " + out + " | _ => Crash end)"
+		case strings.HasPrefix(g, "match"):
+			out = "(" + g + " " + out + " end)"
+		default:
+			out = "(" + g + " " + out + ")"
+		}
+	}
+	return out
+}
+
+var callTable = map[string]string{
+	"strings.ToLower":   "to_lower",
+	"strings.HasPrefix": "go_has_prefix",
+	"strings.Split":     "go_split",
+	"strings.Index":     "go_index",
+	"bytes.Count":       "bytes_count",
+	"bytes.Replace":     "bytes_replace",
+	"math.IsNaN":        "flt_is_nan",
+}
+
+func (t *fnTr) call(x *ast.CallExpr) string {
+	// conversions
+	if tv, ok := t.p.info.Types[x.Fun]; ok && tv.IsType() && len(x.Args) == 1 {
+		from, to := t.kindOfExpr(x.Args[0]), t.kindOfType(tv.Type)
+		switch {
+		case from == to && (to == "str" || to == "int" || to == "bool" || to == "flt"):
+			return t.expr(x.Args[0])
+		case to == "val":
+			return t.boxVal(x.Args[0])
+		case to == "vmap" && from == "vmap":
+			return t.expr(x.Args[0])
 		}
 		t.unsupported(x, "conversion "+types.ExprString(x.Fun))
 	}
-	// a call of a package-level function VALUE (checkTagToSkip): Go panics when it is nil
 	if id, ok := x.Fun.(*ast.Ident); ok {
+		if _, isB := t.p.info.Uses[id].(*types.Builtin); isB {
+			switch id.Name {
+			case "len":
+				return "(Z.of_nat (length " + t.expr(x.Args[0]) + "))"
+			case "append":
+				if len(x.Args) != 2 || x.Ellipsis.IsValid() {
+					t.unsupported(x, "append form")
+				}
+				k := t.kindOfExpr(x.Args[0])
+				el := t.expr(x.Args[1])
+				if k == "vlist" {
+					el = t.boxVal(x.Args[1])
+				}
+				return "(app " + t.expr(x.Args[0]) + " [" + el + "])"
+			case "make":
+				if len(x.Args) >= 2 {
+					if n, ok := t.constInt(x.Args[1]); !ok || n != 0 {
+						t.unsupported(x, "make with a non-zero length")
+					}
+				}
+				return fnZero(t.kindOfExpr(x))
+			}
+			t.unsupported(x, "builtin "+id.Name)
+		}
+		// a call of a package-level function VALUE (checkTagToSkip): Go panics when it is nil
 		if g, ok := t.vars[t.p.info.Uses[id]]; ok && g.kind == "tok" {
 			if len(x.Args) != 1 || t.kindOfExpr(x.Args[0]) != "str" {
 				t.unsupported(x, "call of function value "+id.Name)
 			}
 			a := t.expr(x.Args[0])
-			t.guards = append(t.guards, fmt.Sprintf("match g_%s st with None => %s | Some _ =>", g.name, t.crashV()))
-			return "(call_" + g.name + " " + a + ")", true
+			t.guards = append(t.guards, fmt.Sprintf("match g_%s st with None => Crash | Some _ =>", g.name))
+			return "(call_" + g.name + " " + a + ")"
 		}
 	}
-	pkg, name, ok := p.pkgCall(x)
-	if !ok {
-		return "", false
+	if pkg, name, ok := t.pkgCall(x); ok {
+		full := pkg + "." + name
+		argInt := func(i int, want int64) {
+			v, ok := t.constInt(x.Args[i])
+			if !ok || v != want {
+				t.unsupported(x, fmt.Sprintf("%s with argument %d other than %d", full, i, want))
+			}
+		}
+		if full == "math.IsInf" {
+			argInt(1, 0)
+			return "(flt_is_inf " + t.expr(x.Args[0]) + ")"
+		}
+		if f, ok := callTable[full]; ok {
+			args := make([]string, len(x.Args))
+			for i, a := range x.Args {
+				args[i] = t.expr(a)
+			}
+			return "(" + f + " " + strings.Join(args, " ") + ")"
+		}
+		t.unsupported(x, "call "+full)
 	}
-	argInt := func(i int, want int64) {
-		v, ok := t.constInt(x.Args[i])
-		if !ok || v != want {
-			t.unsupported(x, fmt.Sprintf("%s.%s with argument %d other than %d", pkg, name, i, want))
+	// another function / method of the package: an external call (Section variable)
+	var callee types.Object
+	var recv ast.Expr
+	switch f := x.Fun.(type) {
+	case *ast.Ident:
+		callee = t.p.info.Uses[f]
+	case *ast.SelectorExpr:
+		if sel, ok := t.p.info.Selections[f]; ok && sel.Kind() == types.MethodVal {
+			callee, recv = sel.Obj(), f.X
 		}
 	}
-	switch pkg + "." + name {
-	case "math.IsNaN":
-		return "(flt_is_nan " + t.expr(x.Args[0]) + ")", true
-	case "math.IsInf":
-		argInt(1, 0)
-		return "(flt_is_inf " + t.expr(x.Args[0]) + ")", true
-	case "bytes.Count":
-		return "(bytes_count " + t.expr(x.Args[0]) + " " + t.expr(x.Args[1]) + ")", true
-	case "bytes.Replace":
-		return "(bytes_replace " + t.expr(x.Args[0]) + " " + t.expr(x.Args[1]) + " " + t.expr(x.Args[2]) + " " + t.expr(x.Args[3]) + ")", true
-	}
-	return "", false
-}
-
-// parseCall recognises `strconv.ParseX(...)` and returns the Gallina option-valued oracle call and the result kind.
-func (p *pureTr) parseCall(e ast.Expr) (string, string, bool) {
-	x, ok := e.(*ast.CallExpr)
-	if !ok {
-		return "", "", false
-	}
-	pkg, name, ok := p.pkgCall(x)
-	if !ok || pkg != "strconv" {
-		return "", "", false
-	}
-	t := p.t
-	argInt := func(i int, want int64) {
-		v, ok := t.constInt(x.Args[i])
-		if !ok || v != want {
-			t.unsupported(x, fmt.Sprintf("strconv.%s with argument %d other than %d", name, i, want))
+	if fn, ok := callee.(*types.Func); ok && fn.Pkg() == t.p.pkg {
+		sig := fn.Type().(*types.Signature)
+		if sig.Results().Len() != 1 || sig.Variadic() {
+			t.unsupported(x, "external call with this signature")
 		}
+		var tys, args []string
+		if recv != nil {
+			tys = append(tys, fnCoqType(t.kindOfType(sig.Recv().Type())))
+			args = append(args, t.expr(recv))
+		}
+		for i, a := range x.Args {
+			k := t.kindOfType(sig.Params().At(i).Type())
+			if k == "" {
+				t.unsupported(x, "external call with a parameter of this type")
+			}
+			tys = append(tys, fnCoqType(k))
+			args = append(args, t.expr(a))
+		}
+		rk := t.kindOfType(sig.Results().At(0).Type())
+		if rk == "" {
+			t.unsupported(x, "external call with this result type")
+		}
+		name := "ext_" + fn.Name()
+		typ := strings.Join(append(tys, fnCoqType(rk)), " -> ")
+		found := false
+		for _, e := range *t.externs {
+			found = found || e.name == name
+		}
+		if !found {
+			*t.externs = append(*t.externs, extern{name, typ})
+		}
+		return "(" + name + " " + strings.Join(args, " ") + ")"
 	}
-	switch name {
-	case "ParseInt":
-		argInt(1, 10)
-		argInt(2, 64)
-		return "(parse_int 64 " + t.expr(x.Args[0]) + ")", "int", true
-	case "ParseUint":
-		argInt(1, 10)
-		argInt(2, 64)
-		return "(parse_uint 64 " + t.expr(x.Args[0]) + ")", "int", true
-	case "ParseFloat":
-		argInt(1, 64)
-		return "(ParseFloat " + t.expr(x.Args[0]) + ")", "flt", true
-	case "ParseBool":
-		return "(parse_bool " + t.expr(x.Args[0]) + ")", "bool", true
-	}
-	return "", "", false
-}
-
-func (p *pureTr) box(e ast.Expr) string {
-	t := p.t
-	v := t.expr(e)
-	if !p.retBox {
-		return v
-	}
-	tv := t.p.info.Types[e]
-	b, ok := tv.Type.Underlying().(*types.Basic)
-	if !ok {
-		t.unsupported(e, "returned value of type "+tv.Type.String())
-	}
-	switch b.Kind() {
-	case types.String:
-		return "(VStr " + v + ")"
-	case types.Int64:
-		return "(VI64 " + v + ")"
-	case types.Uint64:
-		return "(VU64 " + v + ")"
-	case types.Float64:
-		return "(VFlt " + v + ")"
-	case types.Bool:
-		return "(VBool " + v + ")"
-	case types.Int:
-		return "(VInt " + v + ")"
-	}
-	t.unsupported(e, "returned value of type "+tv.Type.String())
+	t.unsupported(x, "call "+types.ExprString(x.Fun))
 	return ""
 }
+
+// condIf translates `if cond then a else b` with Go's short-circuit evaluation, so that a partial operation
+// on the right of && / || is evaluated only when Go evaluates it.
+func (t *fnTr) condIf(cond ast.Expr, thenS, elseS string) string {
+	switch x := cond.(type) {
+	case *ast.ParenExpr:
+		return t.condIf(x.X, thenS, elseS)
+	case *ast.BinaryExpr:
+		if x.Op == token.LOR {
+			return t.condIf(x.X, thenS, t.condIf(x.Y, thenS, elseS))
+		}
+		if x.Op == token.LAND {
+			return t.condIf(x.X, t.condIf(x.Y, thenS, elseS), elseS)
+		}
+	case *ast.UnaryExpr:
+		if x.Op == token.NOT {
+			return t.condIf(x.X, elseS, thenS)
+		}
+	}
+	mark := len(t.guards)
+	c := t.expr(cond)
+	return t.wrap(mark, "if "+c+"\n    then ("+thenS+")\n    else ("+elseS+")")
+}
+
+// ---------------------------------------------------------------- statements
 
 // fallsThrough: may control reach the end of the statement list?
 func fallsThrough(list []ast.Stmt) bool {
@@ -223,29 +691,26 @@ func fallsThrough(list []ast.Stmt) bool {
 			return true
 		}
 		return fallsThrough(x.Body.List) || fallsThrough([]ast.Stmt{x.Else})
+	case *ast.SwitchStmt:
+		return switchFalls(x.Body)
+	case *ast.TypeSwitchStmt:
+		return switchFalls(x.Body)
 	}
 	return true
 }
 
-// assignsOuter: does the statement list assign (=) a local that was declared outside it?
-func (p *pureTr) assignsOuter(list []ast.Stmt) bool {
-	declared := map[types.Object]bool{}
+// hasContinue: does the list contain a `continue` (of the enclosing loop)?
+func hasContinue(list []ast.Stmt) bool {
 	found := false
 	for _, s := range list {
 		ast.Inspect(s, func(n ast.Node) bool {
-			if as, ok := n.(*ast.AssignStmt); ok {
-				for _, l := range as.Lhs {
-					if id, ok := l.(*ast.Ident); ok {
-						if as.Tok == token.DEFINE {
-							declared[p.t.p.info.Defs[id]] = true
-						} else if o := p.t.p.info.Uses[id]; o != nil && !declared[o] {
-							found = true
-						}
-					}
+			switch x := n.(type) {
+			case *ast.BranchStmt:
+				if x.Tok == token.CONTINUE {
+					found = true
 				}
-			}
-			if _, ok := n.(*ast.IncDecStmt); ok {
-				found = true
+			case *ast.ForStmt, *ast.RangeStmt:
+				return false
 			}
 			return true
 		})
@@ -253,240 +718,747 @@ func (p *pureTr) assignsOuter(list []ast.Stmt) bool {
 	return found
 }
 
-func (p *pureTr) end() string {
-	if p.inLoop {
-		return "Next " + p.carried
+func switchFalls(b *ast.BlockStmt) bool {
+	hasDef := false
+	for _, c := range b.List {
+		cc := c.(*ast.CaseClause)
+		if cc.List == nil {
+			hasDef = true
+		}
+		if fallsThrough(cc.Body) {
+			return true
+		}
 	}
-	return "Fall"
+	return !hasDef
 }
 
-// stmts translates a statement list; `end` is what falling off its end evaluates to.
-func (p *pureTr) stmts(list []ast.Stmt, end func() string) string {
-	t := p.t
+// assigned: the outer locals (declared before the statements) that the statements assign, in order of first assignment.
+func (t *fnTr) assigned(list []ast.Stmt) []*lvar {
+	var out []*lvar
+	seen := map[*lvar]bool{}
+	add := func(lv *lvar) {
+		if lv != nil && !seen[lv] {
+			seen[lv] = true
+			out = append(out, lv)
+		}
+	}
+	target := func(e ast.Expr, define bool) {
+		switch l := e.(type) {
+		case *ast.Ident:
+			if define {
+				if t.p.info.Defs[l] != nil {
+					return // a new variable
+				}
+			}
+			if lv, ok := t.locals[t.p.info.Uses[l]]; ok && lv.fields == nil {
+				add(lv)
+			}
+		case *ast.SelectorExpr:
+			if id, ok := l.X.(*ast.Ident); ok {
+				if lv, ok := t.locals[t.p.info.Uses[id]]; ok && lv.fields != nil {
+					add(lv.fields[l.Sel.Name])
+				}
+			}
+		case *ast.IndexExpr:
+			if id, ok := l.X.(*ast.Ident); ok {
+				if lv, ok := t.locals[t.p.info.Uses[id]]; ok {
+					add(lv)
+				}
+			}
+		}
+	}
+	for _, s := range list {
+		ast.Inspect(s, func(n ast.Node) bool {
+			switch x := n.(type) {
+			case *ast.AssignStmt:
+				for _, l := range x.Lhs {
+					target(l, x.Tok == token.DEFINE)
+				}
+			case *ast.IncDecStmt:
+				target(x.X, false)
+			}
+			return true
+		})
+	}
+	return out
+}
+
+func tuplePat(vs []*lvar) string {
+	if len(vs) == 0 {
+		return "_"
+	}
+	if len(vs) == 1 {
+		return vs[0].name
+	}
+	names := make([]string, len(vs))
+	for i, v := range vs {
+		names[i] = v.name
+	}
+	return "'(" + strings.Join(names, ", ") + ")"
+}
+
+func tupleVal(vs []*lvar) string {
+	if len(vs) == 0 {
+		return "tt"
+	}
+	names := make([]string, len(vs))
+	for i, v := range vs {
+		names[i] = v.name
+	}
+	if len(vs) == 1 {
+		return names[0]
+	}
+	return "(" + strings.Join(names, ", ") + ")"
+}
+
+func tupleType(vs []*lvar) string {
+	if len(vs) == 0 {
+		return "unit"
+	}
+	tys := make([]string, len(vs))
+	for i, v := range vs {
+		tys[i] = fnCoqType(v.kind)
+	}
+	if len(vs) == 1 {
+		return tys[0]
+	}
+	return "(" + strings.Join(tys, " * ") + ")"
+}
+
+func (t *fnTr) resultType() string {
+	if len(t.resKind) == 2 && t.resKind[1] == "err" {
+		return "(res " + fnCoqType(t.resKind[0]) + ")"
+	}
+	if len(t.resKind) == 1 {
+		return fnCoqType(t.resKind[0])
+	}
+	return "?"
+}
+
+// branching sequences a statement with alternative bodies (if / switch) with what follows it.
+//   mk(tr) builds the branching expression from the translation tr of each body;
+//   bodies are all alternative statement lists (a missing else / default counts as an empty body).
+func (t *fnTr) branching(s ast.Stmt, rest []ast.Stmt, end func() string, bodies [][]ast.Stmt, mk func(tr func([]ast.Stmt) string) string) string {
+	// translate every body with its own scope of "escaped" structs
+	run := func(endB func() string) string {
+		return mk(func(b []ast.Stmt) string {
+			saved := map[types.Object]bool{}
+			for k, v := range t.escaped {
+				saved[k] = v
+			}
+			out := t.stmts(b, endB)
+			if !fallsThrough(b) {
+				t.escaped = saved
+			}
+			return out
+		})
+	}
+	if len(rest) == 0 {
+		return run(end)
+	}
+	// a `continue` inside a body leaves the join: translate what follows into every body that falls through instead
+	for _, b := range bodies {
+		if hasContinue(b) {
+			return run(func() string { return t.stmts(rest, end) })
+		}
+	}
+	anyFalls := false
+	var all []ast.Stmt
+	for _, b := range bodies {
+		anyFalls = anyFalls || fallsThrough(b)
+		if fallsThrough(b) {
+			all = append(all, b...)
+		}
+	}
+	if !anyFalls {
+		t.unsupported(s, "statements after a branch that never falls through")
+	}
+	as := t.assigned(all)
+	inner := run(func() string { return "Next " + tupleVal(as) })
+	return "bindc (S := " + tupleType(as) + ") (" + inner + ")\n  (fun " + tuplePat(as) + " => " + t.stmts(rest, end) + ")"
+}
+
+func (t *fnTr) retExpr(x *ast.ReturnStmt) string {
+	switch {
+	case len(t.resKind) == 1 && len(x.Results) == 1:
+		mark := len(t.guards)
+		var v string
+		if t.resKind[0] == "val" {
+			v = t.boxVal(x.Results[0])
+		} else {
+			v = t.expr(x.Results[0])
+		}
+		return t.wrap(mark, "Ret "+v)
+	case len(t.resKind) == 2 && t.resKind[1] == "err" && len(x.Results) == 2:
+		if t.p.info.Types[x.Results[1]].IsNil() {
+			mark := len(t.guards)
+			v := t.expr(x.Results[0])
+			if t.p.info.Types[x.Results[0]].IsNil() {
+				v = fnZero(t.resKind[0])
+			}
+			return t.wrap(mark, "Ret (Ok "+v+")")
+		}
+		// a non-nil error: fmt.Errorf / errors.New ; the first result must be nil (no partial value with an error)
+		if !t.p.info.Types[x.Results[0]].IsNil() {
+			t.unsupported(x, "a non-nil value returned together with an error")
+		}
+		if c, ok := x.Results[1].(*ast.CallExpr); ok {
+			if pkg, name, ok := t.pkgCall(c); ok && (pkg+"."+name == "fmt.Errorf" || pkg+"."+name == "errors.New") {
+				return "Ret (Err EOther)"
+			}
+		}
+		t.unsupported(x, "error value other than fmt.Errorf / errors.New")
+	}
+	t.unsupported(x, "return form")
+	return ""
+}
+
+func (t *fnTr) stmts(list []ast.Stmt, end func() string) string {
 	if len(list) == 0 {
 		return end()
 	}
 	s, rest := list[0], list[1:]
-	next := func() string { return p.stmts(rest, end) }
-	// sequencing of a branching statement with what follows it
-	seq := func(s ast.Stmt, bodies [][]ast.Stmt, hasDefault bool, mk func(tr func([]ast.Stmt) string) string) string {
-		if len(rest) == 0 {
-			return mk(func(b []ast.Stmt) string { return p.stmts(b, end) })
-		}
-		anyFalls := !hasDefault
-		for _, b := range bodies {
-			if fallsThrough(b) {
-				anyFalls = true
-			}
-		}
-		if !anyFalls {
-			t.unsupported(s, "statements after a branch that never falls through")
-		}
-		for _, b := range bodies {
-			if fallsThrough(b) && p.assignsOuter(b) {
-				t.unsupported(s, "a branch that falls through after assigning an outer local, followed by more statements")
-			}
-		}
-		inner := mk(func(b []ast.Stmt) string { return p.stmts(b, func() string { return "Fall" }) })
-		return "seqc (" + inner + ")\n  (fun _ => " + next() + ")"
-	}
+	next := func() string { return t.stmts(rest, end) }
 	switch x := s.(type) {
 	case *ast.BlockStmt:
-		return p.stmts(append(append([]ast.Stmt{}, x.List...), rest...), end)
+		return t.stmts(append(append([]ast.Stmt{}, x.List...), rest...), end)
 	case *ast.EmptyStmt:
 		return next()
 	case *ast.ReturnStmt:
-		if len(x.Results) != 1 {
-			t.unsupported(s, "return form")
-		}
-		mark := len(t.guards)
-		v := p.box(x.Results[0])
-		return t.guarded(mark, "Ret "+v)
+		return t.retExpr(x)
 	case *ast.BranchStmt:
-		if x.Tok == token.CONTINUE && p.inLoop && x.Label == nil {
-			return "Next " + p.carried
+		if x.Tok == token.CONTINUE && t.inLoop && x.Label == nil {
+			return t.loopEnd()
 		}
 		t.unsupported(s, "branch statement "+x.Tok.String())
-	case *ast.AssignStmt:
-		if len(x.Lhs) != 1 || len(x.Rhs) != 1 || (x.Tok != token.ASSIGN && x.Tok != token.DEFINE) {
-			t.unsupported(s, "assignment form")
+	case *ast.DeclStmt:
+		gd, ok := x.Decl.(*ast.GenDecl)
+		if !ok || gd.Tok != token.VAR {
+			t.unsupported(s, "declaration")
 		}
-		id, ok := x.Lhs[0].(*ast.Ident)
-		if !ok {
-			t.unsupported(s, "assignment target")
-		}
-		mark := len(t.guards)
-		val := t.expr(x.Rhs[0])
-		var obj types.Object
-		if x.Tok == token.DEFINE {
-			obj = t.p.info.Defs[id]
-			if t.kindOfExpr(x.Rhs[0]) == "" {
-				t.unsupported(s, "local variable of this type")
+		out := ""
+		for _, sp := range gd.Specs {
+			vs := sp.(*ast.ValueSpec)
+			for i, id := range vs.Names {
+				obj := t.p.info.Defs[id]
+				k := t.kindOfType(obj.Type())
+				if k == "" || strings.HasPrefix(k, "rec") {
+					t.unsupported(s, "local variable of this type")
+				}
+				val := fnZero(k)
+				mark := len(t.guards)
+				if i < len(vs.Values) {
+					val = t.expr(vs.Values[i])
+				}
+				lv := t.newLocal(obj, id.Name, k)
+				out += t.wrap(mark, "let "+lv.name+" := "+val+" in ")
 			}
-			t.locals[obj] = "l_" + id.Name
-		} else {
-			obj = t.p.info.Uses[id]
 		}
-		if _, isG := t.vars[obj]; isG {
-			t.unsupported(s, "assignment to a package-level variable in a pure function")
-		}
-		n, ok := t.locals[obj]
+		return out + next()
+	case *ast.IncDecStmt:
+		id, ok := x.X.(*ast.Ident)
 		if !ok {
-			t.unsupported(s, "assignment to "+id.Name)
+			t.unsupported(s, "inc/dec target")
 		}
-		return t.guarded(mark, "let "+n+" := "+val+" in\n  "+next())
+		lv, ok := t.locals[t.p.info.Uses[id]]
+		if !ok || lv.kind != "int" {
+			t.unsupported(s, "inc/dec target")
+		}
+		op := "+"
+		if x.Tok == token.DEC {
+			op = "-"
+		}
+		return "let " + lv.name + " := (" + lv.name + " " + op + " 1)%Z in\n  " + next()
+	case *ast.AssignStmt:
+		return t.assign(x, next)
 	case *ast.IfStmt:
 		var elseB []ast.Stmt
 		if x.Else != nil {
 			elseB = []ast.Stmt{x.Else}
 		}
+		ifPart := func() string {
+			return t.branching(s, rest, end, [][]ast.Stmt{x.Body.List, elseB}, func(tr func([]ast.Stmt) string) string {
+				// the order matters: the then-branch is translated before the else-branch
+				th := tr(x.Body.List)
+				el := tr(elseB)
+				return t.condIf(x.Cond, th, el)
+			})
+		}
 		if x.Init != nil {
-			// if v, err := strconv.ParseX(...); err == nil { body }
+			// the init statement scopes over the if only; names are unique per object, so a plain sequence is faithful
 			as, ok := x.Init.(*ast.AssignStmt)
-			if !ok || as.Tok != token.DEFINE || len(as.Lhs) != 2 || len(as.Rhs) != 1 || x.Else != nil {
+			if !ok || as.Tok != token.DEFINE {
 				t.unsupported(s, "if with this init statement")
 			}
-			vId, ok1 := as.Lhs[0].(*ast.Ident)
-			eId, ok2 := as.Lhs[1].(*ast.Ident)
-			cond, ok3 := x.Cond.(*ast.BinaryExpr)
-			if !ok1 || !ok2 || !ok3 || cond.Op != token.EQL {
-				t.unsupported(s, "if with this init statement")
-			}
-			cl, okl := cond.X.(*ast.Ident)
-			if !okl || t.p.info.Uses[cl] != t.p.info.Defs[eId] || !t.p.info.Types[cond.Y].IsNil() {
-				t.unsupported(s, "if-init condition other than `err == nil`")
-			}
-			// err must not be used in the body
-			errObj := t.p.info.Defs[eId]
-			ast.Inspect(x.Body, func(n ast.Node) bool {
-				if id, ok := n.(*ast.Ident); ok && t.p.info.Uses[id] == errObj {
-					t.unsupported(s, "error value used in the body")
-				}
-				return true
-			})
-			mark := len(t.guards)
-			orc, _, ok := p.parseCall(as.Rhs[0])
-			if !ok {
-				t.unsupported(s, "if-init call other than strconv.ParseInt/ParseUint/ParseFloat/ParseBool")
-			}
-			name := "l_" + vId.Name
-			t.locals[t.p.info.Defs[vId]] = name
-			return seq(s, [][]ast.Stmt{x.Body.List}, false, func(tr func([]ast.Stmt) string) string {
-				return t.guarded(mark, "match "+orc+" with\n  | Some "+name+" => "+tr(x.Body.List)+"\n  | None => "+tr(nil)+"\n  end")
-			})
+			return t.assign(as, ifPart)
 		}
-		return seq(s, [][]ast.Stmt{x.Body.List, elseB}, x.Else != nil, func(tr func([]ast.Stmt) string) string {
-			return t.condIf(x.Cond, tr(x.Body.List), tr(elseB))
-		})
+		return ifPart()
 	case *ast.SwitchStmt:
-		if x.Init != nil || x.Tag == nil {
-			t.unsupported(s, "switch without tag / with init")
-		}
-		if t.kindOfExpr(x.Tag) != "str" {
-			t.unsupported(s, "switch on a non-string")
-		}
-		var bodies [][]ast.Stmt
-		type arm struct {
-			consts []string
-			body   []ast.Stmt
-		}
-		var arms []arm
-		var def []ast.Stmt
-		hasDef := false
-		for _, c := range x.Body.List {
-			cc := c.(*ast.CaseClause)
-			for _, st := range cc.Body {
-				if b, ok := st.(*ast.BranchStmt); ok && b.Tok != token.CONTINUE {
-					t.unsupported(st, "break/fallthrough in switch")
-				}
-			}
-			if cc.List == nil {
-				hasDef, def = true, cc.Body
-				bodies = append(bodies, cc.Body)
-				continue
-			}
-			a := arm{body: cc.Body}
-			for _, e := range cc.List {
-				tv := t.p.info.Types[e]
-				if tv.Value == nil || tv.Value.Kind() != constant.String {
-					t.unsupported(e, "non-constant case")
-				}
-				a.consts = append(a.consts, gstr(constant.StringVal(tv.Value)))
-			}
-			arms = append(arms, a)
-			bodies = append(bodies, cc.Body)
-		}
-		mark := len(t.guards)
-		tag := t.expr(x.Tag)
-		t.fresh++
-		sw := fmt.Sprintf("sw%d", t.fresh)
-		return seq(s, bodies, hasDef, func(tr func([]ast.Stmt) string) string {
-			out := tr(def)
-			for i := len(arms) - 1; i >= 0; i-- {
-				out = "if existsb (str_eqb " + sw + ") [" + strings.Join(arms[i].consts, "; ") + "]\n    then (" + tr(arms[i].body) + ")\n    else (" + out + ")"
-			}
-			return t.guarded(mark, "let "+sw+" := "+tag+" in "+out)
-		})
+		return t.switchStmt(x, rest, end)
+	case *ast.TypeSwitchStmt:
+		return t.typeSwitch(x, rest, end)
 	case *ast.RangeStmt:
-		if p.inLoop {
-			t.unsupported(s, "nested loop")
-		}
-		tid, ok := x.X.(*ast.Ident)
-		if !ok {
-			t.unsupported(s, "range over a non-identifier")
-		}
-		tbl, ok := p.tables[t.p.info.Uses[tid]]
-		if !ok {
-			t.unsupported(s, "range over something other than a package-level constant table")
-		}
-		if k, ok := x.Key.(*ast.Ident); !ok || k.Name != "_" || x.Tok != token.DEFINE {
-			t.unsupported(s, "range with an index variable")
-		}
-		vId, ok := x.Value.(*ast.Ident)
-		if !ok {
-			t.unsupported(s, "range value")
-		}
-		// exactly one loop-carried local
-		var carried []types.Object
-		ast.Inspect(x.Body, func(n ast.Node) bool {
-			if as, ok := n.(*ast.AssignStmt); ok && as.Tok == token.ASSIGN {
-				for _, l := range as.Lhs {
-					if id, ok := l.(*ast.Ident); ok {
-						o := t.p.info.Uses[id]
-						if _, isLocal := t.locals[o]; isLocal {
-							dup := false
-							for _, c := range carried {
-								dup = dup || c == o
-							}
-							if !dup {
-								carried = append(carried, o)
-							}
-						}
-					}
-				}
-			}
-			return true
-		})
-		if len(carried) != 1 {
-			t.unsupported(s, fmt.Sprintf("loop with %d loop-carried locals (exactly one is supported)", len(carried)))
-		}
-		cname := t.locals[carried[0]]
-		ckind := pureKind(carried[0].Type())
-		if ckind == "" {
-			ckind = kindOf(carried[0].Type())
-		}
-		t.locals[t.p.info.Defs[vId]] = "l_" + vId.Name
-		p.inLoop, p.carried = true, cname
-		body := p.stmts(x.Body.List, func() string { return "Next " + cname })
-		p.inLoop = false
-		return "match range_loop (fun (" + cname + " : " + pureCoqType(ckind) + ") (l_" + vId.Name + " : list str) =>\n    (" + body + " : ctl " + pureCoqType(ckind) + " " + p.resultTy + ")) " + tbl + " " + cname + " with\n  | Next " + cname + " => " + next() +
-			"\n  | Ret a => Ret a\n  | Fall => Fall\n  | Crash => Crash\n  end"
+		return t.rangeStmt(x, rest, end)
+	case *ast.ForStmt:
+		return t.forStmt(x, rest, end)
+	case *ast.ExprStmt:
+		t.unsupported(s, "expression statement (a call for its effect)")
 	}
 	t.unsupported(s, fmt.Sprintf("statement %T", s))
 	return ""
 }
 
-// constTable renders a package-level [][2][]byte (or [][]string) composite literal as a list of string lists.
+func (t *fnTr) assign(x *ast.AssignStmt, next func() string) string {
+	define := x.Tok == token.DEFINE
+	if x.Tok != token.ASSIGN && !define {
+		t.unsupported(x, "assignment operator "+x.Tok.String())
+	}
+	// two-value forms
+	if len(x.Lhs) == 2 && len(x.Rhs) == 1 {
+		a, ok1 := x.Lhs[0].(*ast.Ident)
+		b, ok2 := x.Lhs[1].(*ast.Ident)
+		if !ok1 || !ok2 || !define {
+			t.unsupported(x, "two-value assignment form")
+		}
+		bind := func(id *ast.Ident, kind string) string {
+			if id.Name == "_" {
+				return "_"
+			}
+			obj := t.p.info.Defs[id]
+			if obj == nil {
+				t.unsupported(x, "re-declaration in a two-value :=")
+			}
+			return t.newLocal(obj, id.Name, kind).name
+		}
+		switch r := x.Rhs[0].(type) {
+		case *ast.CallExpr: // x, err := strconv.ParseX(...)
+			mark := len(t.guards)
+			orc, k, ok := t.parseCall(r)
+			if !ok {
+				t.unsupported(x, "two-value call other than strconv.ParseInt/ParseUint/ParseFloat/ParseBool")
+			}
+			va, vb := bind(a, k), bind(b, "errnil")
+			if lv, ok := t.locals[t.p.info.Defs[b]]; ok {
+				lv.kind = "errnil" // a bool: the error IS nil
+			}
+			return t.wrap(mark, "let '("+va+", "+vb+") := match "+orc+" with Some v => (v, true) | None => ("+fnZero(k)+", false) end in\n  "+next())
+		case *ast.IndexExpr: // v, ok := m[k]
+			if t.kindOfExpr(r.X) != "vmap" {
+				t.unsupported(x, "comma-ok index on a non-map")
+			}
+			mark := len(t.guards)
+			m, k := t.expr(r.X), t.expr(r.Index)
+			va, vb := bind(a, "val"), bind(b, "bool")
+			return t.wrap(mark, "let '("+va+", "+vb+") := match lookup "+k+" "+m+" with Some v => (v, true) | None => (VNil, false) end in\n  "+next())
+		case *ast.TypeAssertExpr: // v, ok := e.(T)
+			pat, k := t.assertPat(t.p.info.Types[r.Type].Type, "v")
+			if pat == "" {
+				t.unsupported(x, "comma-ok assertion to this type")
+			}
+			mark := len(t.guards)
+			e := t.expr(r.X)
+			va, vb := bind(a, k), bind(b, "bool")
+			return t.wrap(mark, "let '("+va+", "+vb+") := match "+e+" with "+pat+" => (v, true) | _ => ("+fnZero(k)+", false) end in\n  "+next())
+		}
+		t.unsupported(x, "two-value assignment form")
+	}
+	if len(x.Lhs) != 1 || len(x.Rhs) != 1 {
+		t.unsupported(x, "assignment form")
+	}
+	switch l := x.Lhs[0].(type) {
+	case *ast.Ident:
+		var obj types.Object
+		if define {
+			obj = t.p.info.Defs[l]
+		} else {
+			obj = t.p.info.Uses[l]
+		}
+		if _, isG := t.vars[obj]; isG {
+			t.unsupported(x, "assignment to a package-level variable in a pure function")
+		}
+		// struct local: p := new(T) / &T{}
+		if define {
+			if c, ok := x.Rhs[0].(*ast.CallExpr); ok {
+				if id, ok := c.Fun.(*ast.Ident); ok && id.Name == "new" {
+					if _, isB := t.p.info.Uses[id].(*types.Builtin); isB {
+						k := t.kindOfType(obj.Type())
+						if !strings.HasPrefix(k, "rec:") {
+							t.unsupported(x, "new of this type")
+						}
+						st := t.structs[k[4:]]
+						lv := &lvar{name: "l_" + l.Name, kind: k, fields: map[string]*lvar{}}
+						t.locals[obj] = lv
+						out := ""
+						for i := 0; i < st.NumFields(); i++ {
+							f := st.Field(i)
+							fk := t.kindOfType(f.Type())
+							fl := t.newLocal(nil, l.Name+"_"+f.Name(), fk)
+							lv.fields[f.Name()] = fl
+							lv.forder = append(lv.forder, f.Name())
+							out += "let " + fl.name + " := " + fnZero(fk) + " in "
+						}
+						return out + "\n  " + next()
+					}
+				}
+			}
+		}
+		mark := len(t.guards)
+		k := t.kindOfExpr(x.Rhs[0])
+		var val string
+		if define {
+			if k == "" || k == "nil" {
+				t.unsupported(x, "local variable of this type")
+			}
+			val = t.expr(x.Rhs[0])
+			lv := t.newLocal(obj, l.Name, k)
+			return t.wrap(mark, "let "+lv.name+" : "+fnCoqType(k)+" := "+val+" in\n  "+next())
+		}
+		lv, ok := t.locals[obj]
+		if !ok || lv.fields != nil || lv.elemOf != nil {
+			t.unsupported(x, "assignment to "+l.Name)
+		}
+		if lv.kind == "val" {
+			val = t.boxVal(x.Rhs[0])
+		} else {
+			val = t.expr(x.Rhs[0])
+		}
+		return t.wrap(mark, "let "+lv.name+" := "+val+" in\n  "+next())
+	case *ast.SelectorExpr: // p.f = e on a struct local
+		id, ok := l.X.(*ast.Ident)
+		if !ok {
+			t.unsupported(x, "assignment target")
+		}
+		obj := t.p.info.Uses[id]
+		lv, ok := t.locals[obj]
+		if !ok || lv.fields == nil || lv.fields[l.Sel.Name] == nil {
+			t.unsupported(x, "field assignment on something other than a struct local")
+		}
+		if t.escaped[obj] {
+			t.unsupported(x, "field assignment through a pointer that has already been stored (aliasing)")
+		}
+		mark := len(t.guards)
+		val := t.expr(x.Rhs[0])
+		return t.wrap(mark, "let "+lv.fields[l.Sel.Name].name+" := "+val+" in\n  "+next())
+	case *ast.IndexExpr: // m[k] = e on a local map
+		id, ok := l.X.(*ast.Ident)
+		if !ok {
+			t.unsupported(x, "assignment target")
+		}
+		lv, ok := t.locals[t.p.info.Uses[id]]
+		if !ok || lv.kind != "vmap" || !lv.ownedMap() {
+			t.unsupported(x, "element assignment on something other than a map made by this function")
+		}
+		mark := len(t.guards)
+		k := t.expr(l.Index)
+		v := t.boxVal(x.Rhs[0])
+		return t.wrap(mark, "let "+lv.name+" := set "+k+" "+v+" "+lv.name+" in\n  "+next())
+	}
+	t.unsupported(x, "assignment target")
+	return ""
+}
+
+// ownedMap: maps created by make in this function (parameters are never written: the translated functions are read-only).
+func (lv *lvar) ownedMap() bool { return strings.HasPrefix(lv.name, "l_") }
+
+// parseCall recognises strconv.ParseX(...) and returns the Gallina option-valued call and the result kind.
+func (t *fnTr) parseCall(x *ast.CallExpr) (string, string, bool) {
+	pkg, name, ok := t.pkgCall(x)
+	if !ok || pkg != "strconv" {
+		return "", "", false
+	}
+	argInt := func(i int, wants ...int64) int64 {
+		v, ok := t.constInt(x.Args[i])
+		for _, w := range wants {
+			if ok && v == w {
+				return v
+			}
+		}
+		t.unsupported(x, fmt.Sprintf("strconv.%s with this argument %d", name, i))
+		return 0
+	}
+	switch name {
+	case "ParseInt":
+		argInt(1, 10)
+		bits := argInt(2, 32, 64)
+		return fmt.Sprintf("(parse_int %d %s)", bits, t.expr(x.Args[0])), "int", true
+	case "ParseUint":
+		argInt(1, 10)
+		bits := argInt(2, 32, 64)
+		return fmt.Sprintf("(parse_uint %d %s)", bits, t.expr(x.Args[0])), "int", true
+	case "ParseFloat":
+		argInt(1, 64)
+		return "(ParseFloat " + t.expr(x.Args[0]) + ")", "flt", true
+	case "ParseBool":
+		return "(parse_bool " + t.expr(x.Args[0]) + ")", "bool", true
+	}
+	return "", "", false
+}
+
+func (t *fnTr) switchStmt(x *ast.SwitchStmt, rest []ast.Stmt, end func() string) string {
+	if x.Init != nil {
+		t.unsupported(x, "switch with init")
+	}
+	type arm struct {
+		conds []ast.Expr
+		body  []ast.Stmt
+	}
+	var arms []arm
+	var def []ast.Stmt
+	var bodies [][]ast.Stmt
+	hasDef := false
+	for _, c := range x.Body.List {
+		cc := c.(*ast.CaseClause)
+		for _, st := range cc.Body {
+			if b, ok := st.(*ast.BranchStmt); ok && b.Tok != token.CONTINUE {
+				t.unsupported(st, "break / fallthrough in switch")
+			}
+		}
+		if cc.List == nil {
+			hasDef, def = true, cc.Body
+		} else {
+			arms = append(arms, arm{cc.List, cc.Body})
+		}
+		bodies = append(bodies, cc.Body)
+	}
+	if !hasDef {
+		bodies = append(bodies, nil)
+	}
+	var tagK, sw string
+	mark := len(t.guards)
+	if x.Tag != nil {
+		tagK = t.kindOfExpr(x.Tag)
+		if tagK != "str" && tagK != "int" {
+			t.unsupported(x, "switch on this type")
+		}
+		tag := t.expr(x.Tag)
+		t.fresh++
+		sw = fmt.Sprintf("sw%d", t.fresh)
+		return t.branching(x, rest, end, bodies, func(tr func([]ast.Stmt) string) string {
+			var trs []string
+			for _, a := range arms {
+				trs = append(trs, tr(a.body))
+			}
+			out := tr(def)
+			for i := len(arms) - 1; i >= 0; i-- {
+				var cs []string
+				for _, e := range arms[i].conds {
+					tv := t.p.info.Types[e]
+					if tv.Value == nil {
+						t.unsupported(e, "non-constant case")
+					}
+					c, _ := constTerm(tv.Value, tagK)
+					cs = append(cs, c)
+				}
+				eq := "str_eqb"
+				if tagK == "int" {
+					eq = "Z.eqb"
+				}
+				out = "if existsb (" + eq + " " + sw + ") [" + strings.Join(cs, "; ") + "]\n    then (" + trs[i] + ")\n    else (" + out + ")"
+			}
+			return t.wrap(mark, "let "+sw+" := "+tag+" in "+out)
+		})
+	}
+	// tagless switch: an if-chain
+	return t.branching(x, rest, end, bodies, func(tr func([]ast.Stmt) string) string {
+		var trs []string
+		for _, a := range arms {
+			trs = append(trs, tr(a.body))
+		}
+		out := tr(def)
+		for i := len(arms) - 1; i >= 0; i-- {
+			if len(arms[i].conds) != 1 {
+				t.unsupported(x, "tagless case with several conditions")
+			}
+			out = t.condIf(arms[i].conds[0], trs[i], out)
+		}
+		return out
+	})
+}
+
+func (t *fnTr) typeSwitch(x *ast.TypeSwitchStmt, rest []ast.Stmt, end func() string) string {
+	if x.Init != nil {
+		t.unsupported(x, "type switch with init")
+	}
+	var guard *ast.TypeAssertExpr
+	var bindId *ast.Ident
+	switch a := x.Assign.(type) {
+	case *ast.ExprStmt:
+		guard, _ = a.X.(*ast.TypeAssertExpr)
+	case *ast.AssignStmt:
+		if len(a.Lhs) == 1 && len(a.Rhs) == 1 {
+			bindId, _ = a.Lhs[0].(*ast.Ident)
+			guard, _ = a.Rhs[0].(*ast.TypeAssertExpr)
+		}
+	}
+	if guard == nil || guard.Type != nil {
+		t.unsupported(x, "type switch guard")
+	}
+	if bindId != nil {
+		t.unsupported(x, "type switch with a bound variable")
+	}
+	var bodies [][]ast.Stmt
+	hasDef := false
+	for _, c := range x.Body.List {
+		cc := c.(*ast.CaseClause)
+		bodies = append(bodies, cc.Body)
+		if cc.List == nil {
+			hasDef = true
+		}
+	}
+	if !hasDef {
+		bodies = append(bodies, nil)
+	}
+	mark := len(t.guards)
+	v := t.expr(guard.X)
+	return t.branching(x, rest, end, bodies, func(tr func([]ast.Stmt) string) string {
+		var sb strings.Builder
+		sb.WriteString("match " + v + " with")
+		var def []ast.Stmt
+		for _, c := range x.Body.List {
+			cc := c.(*ast.CaseClause)
+			if cc.List == nil {
+				def = cc.Body
+				continue
+			}
+			var pats []string
+			for _, te := range cc.List {
+				pat, _ := t.assertPat(t.p.info.Types[te].Type, "_")
+				if pat == "" {
+					t.unsupported(te, "type switch case of this type")
+				}
+				pats = append(pats, pat)
+			}
+			sb.WriteString("\n  | " + strings.Join(pats, " | ") + " => " + tr(cc.Body))
+		}
+		sb.WriteString("\n  | _ => " + tr(def) + "\n  end")
+		return t.wrap(mark, sb.String())
+	})
+}
+
+// loop emits a range loop over the Gallina list xs; bindVars registers the loop variables (after the loop-carried
+// locals have been determined, so that the loop variables are not among them) and returns the element pattern.
+func (t *fnTr) loop(s ast.Stmt, body *ast.BlockStmt, xs string, bindVars func() string, elemTy string, rest []ast.Stmt, end func() string) string {
+	if t.inLoop {
+		t.unsupported(s, "nested loop")
+	}
+	as := t.assigned(body.List)
+	pat := bindVars()
+	t.inLoop = true
+	t.loopEnd = func() string { return "Next " + tupleVal(as) }
+	saved := map[types.Object]bool{}
+	for k, v := range t.escaped {
+		saved[k] = v
+	}
+	b := t.stmts(body.List, t.loopEnd)
+	t.escaped = saved
+	t.inLoop = false
+	st := tupleType(as)
+	return "bindc (S := " + st + ") (range_loop (fun (st_ : " + st + ") (el_ : " + elemTy + ") => let " + tuplePat(as) + " := st_ in let " + pat + " := el_ in\n    (" +
+		b + " : ctl " + st + " " + t.resultType() + ")) " + xs + " " + tupleVal(as) + ")\n  (fun " + tuplePat(as) + " => " + t.stmts(rest, end) + ")"
+}
+
+func (t *fnTr) rangeStmt(x *ast.RangeStmt, rest []ast.Stmt, end func() string) string {
+	if x.Tok != token.DEFINE {
+		t.unsupported(x, "range without :=")
+	}
+	k := t.kindOfExpr(x.X)
+	name := func(e ast.Expr, kind string) string {
+		id, ok := e.(*ast.Ident)
+		if e == nil || (ok && id.Name == "_") {
+			return "_"
+		}
+		if !ok {
+			t.unsupported(x, "range variable")
+		}
+		return t.newLocal(t.p.info.Defs[id], id.Name, kind).name
+	}
+	mark := len(t.guards)
+	var xs string
+	if id, ok := x.X.(*ast.Ident); ok {
+		if tbl, ok := t.tables[t.p.info.Uses[id]]; ok {
+			xs = tbl
+			k = "rows"
+		}
+	}
+	if xs == "" {
+		xs = t.expr(x.X)
+	}
+	if len(t.guards) != mark {
+		t.unsupported(x, "partial operation in the range expression")
+	}
+	isBlank := func(e ast.Expr) bool {
+		id, ok := e.(*ast.Ident)
+		return e == nil || (ok && id.Name == "_")
+	}
+	switch k {
+	case "rows":
+		if !isBlank(x.Key) {
+			t.unsupported(x, "range over a table with an index variable")
+		}
+		return t.loop(x, x.Body, xs, func() string { return name(x.Value, "strs") }, "(list str)", rest, end)
+	case "strs", "vlist":
+		if !isBlank(x.Key) {
+			t.unsupported(x, "range over a slice with an index variable")
+		}
+		ek, et := "str", "str"
+		if k == "vlist" {
+			ek, et = "val", "value"
+		}
+		return t.loop(x, x.Body, xs, func() string { return name(x.Value, ek) }, et, rest, end)
+	case "vmap":
+		return t.loop(x, x.Body, xs, func() string { return "'(" + name(x.Key, "str") + ", " + name(x.Value, "val") + ")" }, "(str * value)", rest, end)
+	}
+	t.unsupported(x, "range over this type")
+	return ""
+}
+
+// for i := c; i < len(xs); i++ { body } where i is read only as xs[i]: a range over (skipn c xs).
+func (t *fnTr) forStmt(x *ast.ForStmt, rest []ast.Stmt, end func() string) string {
+	init, ok1 := x.Init.(*ast.AssignStmt)
+	cond, ok2 := x.Cond.(*ast.BinaryExpr)
+	post, ok3 := x.Post.(*ast.IncDecStmt)
+	if !ok1 || !ok2 || !ok3 || init.Tok != token.DEFINE || len(init.Lhs) != 1 || cond.Op != token.LSS || post.Tok != token.INC {
+		t.unsupported(x, "for statement other than `for i := c; i < len(xs); i++`")
+	}
+	iId, _ := init.Lhs[0].(*ast.Ident)
+	start, okc := t.constInt(init.Rhs[0])
+	ci, _ := cond.X.(*ast.Ident)
+	pi, _ := post.X.(*ast.Ident)
+	lc, _ := cond.Y.(*ast.CallExpr)
+	if iId == nil || !okc || ci == nil || pi == nil || lc == nil || len(lc.Args) != 1 {
+		t.unsupported(x, "for statement other than `for i := c; i < len(xs); i++`")
+	}
+	iObj := t.p.info.Defs[iId]
+	lf, _ := lc.Fun.(*ast.Ident)
+	xsId, _ := lc.Args[0].(*ast.Ident)
+	if t.p.info.Uses[ci] != iObj || t.p.info.Uses[pi] != iObj || lf == nil || lf.Name != "len" || xsId == nil {
+		t.unsupported(x, "for statement other than `for i := c; i < len(xs); i++`")
+	}
+	xsObj := t.p.info.Uses[xsId]
+	xsLv, ok := t.locals[xsObj]
+	if !ok || xsLv.kind != "strs" {
+		t.unsupported(x, "index loop over something other than a local []string")
+	}
+	// neither i nor xs may be assigned in the body
+	ast.Inspect(x.Body, func(n ast.Node) bool {
+		if as, ok := n.(*ast.AssignStmt); ok {
+			for _, l := range as.Lhs {
+				if id, ok := l.(*ast.Ident); ok && (t.p.info.Uses[id] == iObj || t.p.info.Uses[id] == xsObj) {
+					t.unsupported(as, "assignment to the loop index / the ranged slice inside the loop")
+				}
+			}
+		}
+		return true
+	})
+	return t.loop(x, x.Body, fmt.Sprintf("(skipn %d %s)", start, xsLv.name), func() string {
+		el := t.newLocal(nil, xsId.Name+"_i", "str")
+		t.locals[iObj] = &lvar{name: "?", kind: "int", elemOf: xsObj, elem: el.name}
+		return el.name
+	}, "str", rest, end)
+}
+
+// ---------------------------------------------------------------- constant tables
+
 func constTable(p *pkgInfo, vs *ast.ValueSpec, i int) (string, bool) {
 	if i >= len(vs.Values) {
 		return "", false
@@ -503,7 +1475,6 @@ func constTable(p *pkgInfo, vs *ast.ValueSpec, i int) (string, bool) {
 		}
 		var cells []string
 		for _, ce := range rl.Elts {
-			// []byte(`..`) or a string constant
 			if call, ok := ce.(*ast.CallExpr); ok && len(call.Args) == 1 {
 				ce = call.Args[0]
 			}
@@ -518,8 +1489,10 @@ func constTable(p *pkgInfo, vs *ast.ValueSpec, i int) (string, bool) {
 	return "[" + strings.Join(rows, ";\n   ") + "]", true
 }
 
-// the functions translated into Pure_gen.v
-var pureFuncs = []string{"cast", "escapeChars"}
+// ---------------------------------------------------------------- driver
+
+// the functions translated into Pure_gen.v ("Recv.Method" for methods)
+var pureFuncs = []string{"cast", "escapeChars", "parsePath", "getSubKeyMap", "hasSubKeys", "Map.PathForKeyShortest"}
 
 func genPure(p *pkgInfo) string {
 	vars, _ := pkgVars(p)
@@ -529,12 +1502,32 @@ func genPure(p *pkgInfo) string {
 	}
 	var sb strings.Builder
 	sb.WriteString("(* GENERATED by /verif/translator (go2v pure) from the current sources of /repo - do not edit.\n")
-	sb.WriteString("   Small pure functions of package mxj translated statement by statement; Crash = a run-time panic,\n")
-	sb.WriteString("   Fall = control fell off the end of a block.  Vocabulary: Gen/PureSupport.v. *)\n")
+	sb.WriteString("   Functions of package mxj translated statement by statement (scheme and fragment: translator/pure.go;\n")
+	sb.WriteString("   vocabulary: Gen/PureSupport.v).  Crash = a run-time panic. *)\n")
 	sb.WriteString("From Mxj Require Import Base.Str Base.Value Gen.GenSupport Gen.Setters_gen Gen.PureSupport.\nLocal Open Scope string_scope.\n\n")
 
-	// constant tables: package-level variables of type [][k][]byte that no function assigns
+	proto := &fnTr{p: p}
+	// structs of the package whose fields are all in the fragment
+	structs := map[string]*types.Struct{}
+	var snames []string
+	for _, name := range p.pkg.Scope().Names() {
+		if tn, ok := p.pkg.Scope().Lookup(name).(*types.TypeName); ok {
+			if st, ok := tn.Type().Underlying().(*types.Struct); ok {
+				okAll := st.NumFields() > 0
+				for i := 0; i < st.NumFields(); i++ {
+					k := proto.kindOfType(st.Field(i).Type())
+					okAll = okAll && (k == "bool" || k == "str" || k == "int")
+				}
+				if okAll {
+					structs[name] = st
+					snames = append(snames, name)
+				}
+			}
+		}
+	}
+	// constant tables
 	tables := map[types.Object]string{}
+	var tableText strings.Builder
 	for _, f := range p.files {
 		for _, d := range f.Decls {
 			gd, ok := d.(*ast.GenDecl)
@@ -545,22 +1538,22 @@ func genPure(p *pkgInfo) string {
 				vs := sp.(*ast.ValueSpec)
 				for i, id := range vs.Names {
 					obj := p.info.Defs[id]
-					if obj == nil || pureKind(obj.Type()) != "" || kindOf(obj.Type()) != "" {
+					if obj == nil {
 						continue
 					}
-					if sl, ok := obj.Type().Underlying().(*types.Slice); !ok || pureKind(sl.Elem()) != "strs" {
+					sl, ok := obj.Type().Underlying().(*types.Slice)
+					if !ok || proto.kindOfType(sl.Elem()) != "strs" {
 						continue
 					}
 					if body, ok := constTable(p, vs, i); ok {
 						tables[obj] = "tbl_" + id.Name
-						fmt.Fprintf(&sb, "(* %s: var %s *)\nDefinition tbl_%s : list (list str) :=\n  %s.\n\n",
+						fmt.Fprintf(&tableText, "(* %s: var %s *)\nDefinition tbl_%s : list (list str) :=\n  %s.\n\n",
 							strings.TrimPrefix(p.fset.Position(id.Pos()).String(), p.dir+"/"), id.Name, id.Name, body)
 					}
 				}
 			}
 		}
 	}
-	// a table must never be assigned
 	for _, f := range p.files {
 		for _, d := range f.Decls {
 			if fn, ok := d.(*ast.FuncDecl); ok && fn.Body != nil {
@@ -569,7 +1562,6 @@ func genPure(p *pkgInfo) string {
 						fail("%s: function %s assigns the constant table %s", p.fset.Position(fn.Pos()), fn.Name.Name, o.Name())
 					}
 				}
-				// element stores into a table
 				ast.Inspect(fn.Body, func(n ast.Node) bool {
 					if as, ok := n.(*ast.AssignStmt); ok {
 						for _, l := range as.Lhs {
@@ -594,6 +1586,110 @@ func genPure(p *pkgInfo) string {
 		}
 	}
 
+	// translate the functions
+	var externs []extern
+	var bodies strings.Builder
+	usedStructs := map[string]bool{}
+	found := map[string]bool{}
+	for _, f := range p.files {
+		for _, d := range f.Decls {
+			fn, ok := d.(*ast.FuncDecl)
+			if !ok || fn.Body == nil {
+				continue
+			}
+			qname := fn.Name.Name
+			if fn.Recv != nil {
+				rt := p.info.Defs[fn.Recv.List[0].Names[0]].Type()
+				if pt, ok := rt.(*types.Pointer); ok {
+					rt = pt.Elem()
+				}
+				if n, ok := rt.(*types.Named); ok {
+					qname = n.Obj().Name() + "." + qname
+				}
+			}
+			want := false
+			for _, n := range pureFuncs {
+				want = want || n == qname
+			}
+			if !want {
+				continue
+			}
+			found[qname] = true
+			if len(assignsPkgVar(p, fn)) != 0 {
+				fail("%s: function %s assigns a package-level variable: it is not pure", p.fset.Position(fn.Pos()), qname)
+			}
+			t := &fnTr{p: p, vars: byObj, fn: fn, locals: map[types.Object]*lvar{}, used: map[string]int{}, tables: tables,
+				externs: &externs, structs: structs, escaped: map[types.Object]bool{}}
+			params := ""
+			addParam := func(id *ast.Ident) {
+				obj := p.info.Defs[id]
+				k := t.kindOfType(obj.Type())
+				if k == "" || k == "tok" || strings.HasPrefix(k, "rec") {
+					t.unsupported(id, "parameter type "+obj.Type().String())
+				}
+				n := "p_" + id.Name
+				t.locals[obj] = &lvar{name: n, kind: k}
+				t.used[n] = 1
+				params += fmt.Sprintf(" (%s : %s)", n, fnCoqType(k))
+			}
+			if fn.Recv != nil {
+				addParam(fn.Recv.List[0].Names[0])
+			}
+			for _, fld := range fn.Type.Params.List {
+				for _, id := range fld.Names {
+					addParam(id)
+				}
+			}
+			if fn.Type.Results == nil {
+				t.unsupported(fn, "no result")
+			}
+			for _, r := range fn.Type.Results.List {
+				if len(r.Names) > 0 {
+					t.unsupported(fn, "named results")
+				}
+				k := t.kindOfType(p.info.Types[r.Type].Type)
+				if k == "" {
+					t.unsupported(fn, "result type")
+				}
+				if strings.HasPrefix(k, "recs:") {
+					usedStructs[k[5:]] = true
+				}
+				t.resKind = append(t.resKind, k)
+			}
+			if t.resultType() == "?" {
+				t.unsupported(fn, "result list")
+			}
+			body := t.stmts(fn.Body.List, func() string { return "Fall" })
+			for _, lv := range t.locals {
+				if strings.HasPrefix(lv.kind, "rec:") {
+					usedStructs[lv.kind[4:]] = true
+				}
+			}
+			fmt.Fprintf(&bodies, "(* %s: func %s *)\nDefinition fn_%s (st : gstate)%s : ctl unit %s :=\n  %s.\n\n",
+				strings.TrimPrefix(p.fset.Position(fn.Pos()).String(), p.dir+"/"), qname, fn.Name.Name, params, t.resultType(), body)
+		}
+	}
+	for _, n := range pureFuncs {
+		if !found[n] {
+			fail("function %s not found in package mxj", n)
+		}
+	}
+	sort.Strings(snames)
+	for _, name := range snames {
+		if !usedStructs[name] {
+			continue
+		}
+		st := structs[name]
+		fmt.Fprintf(&sb, "(* type %s struct *)\nRecord t_%s := mk_%s {", name, name, name)
+		for i := 0; i < st.NumFields(); i++ {
+			if i > 0 {
+				sb.WriteString(";")
+			}
+			fmt.Fprintf(&sb, " %s_%s : %s", name, st.Field(i).Name(), fnCoqType(proto.kindOfType(st.Field(i).Type())))
+		}
+		sb.WriteString(" }.\n\n")
+	}
+	sb.WriteString(tableText.String())
 	sb.WriteString("Section Pure.\n")
 	sb.WriteString("Variable ParseFloat : str -> option flt.      (* strconv.ParseFloat(s, 64): Some (the %v text) when err == nil *)\n")
 	for _, g := range vars {
@@ -603,64 +1699,11 @@ func genPure(p *pkgInfo) string {
 			}
 		}
 	}
+	for _, e := range externs {
+		fmt.Fprintf(&sb, "Variable %s : %s.        (* external call: another function of the package *)\n", e.name, e.typ)
+	}
 	sb.WriteString("\n")
-	found := map[string]bool{}
-	for _, f := range p.files {
-		for _, d := range f.Decls {
-			fn, ok := d.(*ast.FuncDecl)
-			if !ok || fn.Body == nil || fn.Recv != nil {
-				continue
-			}
-			want := false
-			for _, n := range pureFuncs {
-				want = want || n == fn.Name.Name
-			}
-			if !want {
-				continue
-			}
-			found[fn.Name.Name] = true
-			if len(assignsPkgVar(p, fn)) != 0 {
-				fail("%s: function %s assigns a package-level variable: it is not pure", p.fset.Position(fn.Pos()), fn.Name.Name)
-			}
-			t := &setterTr{p: p, vars: byObj, fn: fn, locals: map[types.Object]string{}, lkind: map[types.Object]string{}, crash: "Crash"}
-			pt := &pureTr{t: t, tables: tables}
-			t.pure = pt
-			params := ""
-			for _, fld := range fn.Type.Params.List {
-				for _, id := range fld.Names {
-					obj := p.info.Defs[id]
-					k := kindOf(obj.Type())
-					if k == "" {
-						k = pureKind(obj.Type())
-					}
-					if k == "" || k == "tok" {
-						t.unsupported(fld, "parameter type "+obj.Type().String())
-					}
-					t.locals[obj] = "p_" + id.Name
-					params += fmt.Sprintf(" (p_%s : %s)", id.Name, pureCoqType(k))
-				}
-			}
-			if fn.Type.Results == nil || len(fn.Type.Results.List) != 1 || len(fn.Type.Results.List[0].Names) > 0 {
-				t.unsupported(fn, "result list")
-			}
-			rtT := p.info.Types[fn.Type.Results.List[0].Type].Type
-			if _, isIface := rtT.Underlying().(*types.Interface); isIface {
-				pt.retBox, pt.resultTy = true, "value"
-			} else if kindOf(rtT) == "str" {
-				pt.resultTy = "str"
-			} else {
-				t.unsupported(fn, "result type "+rtT.String())
-			}
-			body := pt.stmts(fn.Body.List, func() string { return "Fall" })
-			fmt.Fprintf(&sb, "(* %s: func %s *)\nDefinition fn_%s (st : gstate)%s : ctl unit %s :=\n  %s.\n\n",
-				strings.TrimPrefix(p.fset.Position(fn.Pos()).String(), p.dir+"/"), fn.Name.Name, fn.Name.Name, params, pt.resultTy, body)
-		}
-	}
-	for _, n := range pureFuncs {
-		if !found[n] {
-			fail("function %s not found in package mxj", n)
-		}
-	}
+	sb.WriteString(bodies.String())
 	sb.WriteString("End Pure.\n")
 	return sb.String()
 }
